@@ -487,7 +487,7 @@ func C13(p *core.Program, r *core.Report) {
 	}
 	var extra []string
 	for at := range atoms {
-		if wantAtoms[at] || strings.Contains(at, "distiller.LogTiming") || strings.Contains(at, ".IsLogTiming(") || strings.HasPrefix(at, "loop1(") {
+		if wantAtoms[at] || reRootFound.MatchString(at) || strings.Contains(at, "distiller.LogTiming") || strings.Contains(at, ".IsLogTiming(") || strings.HasPrefix(at, "loop1(") {
 			continue
 		}
 		extra = append(extra, at)
